@@ -539,7 +539,7 @@ def _get_virtual_point_data_1storder(bc: ConstBC1stOrderBase):
 
             @register_jitable(inline="always")
             def const_func():
-                value = value_func()
+                value = 1.0 * value_func()  # ensures a floating point data type
                 const = np.empty_like(value)
                 for i in range(value.size):
                     val = value.flat[i]
@@ -551,7 +551,7 @@ def _get_virtual_point_data_1storder(bc: ConstBC1stOrderBase):
 
             @register_jitable(inline="always")
             def factor_func():
-                value = value_func()
+                value = 1.0 * value_func()  # ensures a floating point data type
                 factor = np.empty_like(value)
                 for i in range(value.size):
                     val = value.flat[i]
